@@ -12,6 +12,7 @@
 #include <cstring>
 #include <cstdio>
 #include <string>
+#include <cstdlib>
 
 using namespace bloc;
 
@@ -145,7 +146,9 @@ static void dump_value(std::string& o, Value& v0, int depth = 0)
       /* objects of the verification module start with a magic number and an id (reading a destroyed one is an ASan error) */
       struct Head { unsigned magic; int id; };
       Head * h = static_cast<Head*>(c->instance());
-      o += (h->magic == 0x564d4f44u ? ":" + std::to_string(h->id) : std::string(":DEAD"));
+      /* ids come from one counter of the process: where several threads create objects they depend on the schedule */
+      static const bool noid = getenv("VDUMP_NO_OBJECT_ID") != nullptr;
+      o += (h->magic == 0x564d4f44u ? (noid ? std::string(":live") : ":" + std::to_string(h->id)) : std::string(":DEAD"));
     }
     break;
   }
